@@ -74,7 +74,7 @@ class PowerGate(ComposedGate):
             and by the integer power.
         """
         if hasattr(self, 'utry'):
-            return np.array([])
+            return np.zeros((0, self.dim, self.dim), dtype=np.complex128)
 
         _, grad = self.get_unitary_and_grad(params)
         return grad
@@ -90,7 +90,9 @@ class PowerGate(ComposedGate):
         """
         # Constant gate case
         if hasattr(self, 'utry'):
-            return self.utry, np.array([])
+            return self.utry, np.zeros(
+                (0, self.dim, self.dim), dtype=np.complex128,
+            )
 
         grad_shape = (self.num_params, self.dim, self.dim)
 
